@@ -51,7 +51,7 @@ pub open spec fn sonic_ck_wf(ck: &CommitterKey) -> bool {
     ck.powers_of_g@.len() >= 1
     && (ck.enforced_degree_bounds is Some ==> sorted_usize(ck.enforced_degree_bounds->Some_0@))
     && (ck.shifted_powers_of_g is Some ==> (ck.enforced_degree_bounds is Some && ck.enforced_degree_bounds->Some_0@.len() > 0
-        && ck.enforced_degree_bounds->Some_0@.last() <= ck.shifted_powers_of_g->Some_0@.len()))
+        && ck.enforced_degree_bounds->Some_0@.last() < ck.shifted_powers_of_g->Some_0@.len()))
     && ((ck.enforced_degree_bounds is Some && ck.enforced_degree_bounds->Some_0@.len() > 0) ==> (ck.shifted_powers_of_g is Some && ck.shifted_powers_of_gamma_g is Some))
 }
 impl CommitterKey {
@@ -106,6 +106,12 @@ pub open spec fn sonic_admissible(ck: &CommitterKey, p: &LabeledPolynomial) -> b
     p.degree_bound is Some ==> (ck.enforced_degree_bounds is Some && ck.enforced_degree_bounds->Some_0@.contains(p.degree_bound->Some_0)
             && p.polynomial.degree_spec() <= p.degree_bound->Some_0 && p.degree_bound->Some_0 <= ck.max_degree)
 }
+pub open spec fn sonic_in_domain(ck: &CommitterKey, p: &LabeledPolynomial, has_rng: bool) -> bool {
+    p.polynomial.degree_spec() + 1 <= ck.powers_of_g@.len() && sonic_admissible(ck, p)
+    && (p.hiding_bound is Some ==> (has_rng && match p.degree_bound {
+            Some(d) => p.hiding_bound->Some_0 + 1 < ck.shifted_powers_of_gamma_g->Some_0@[d]@.len(),
+            None => p.hiding_bound->Some_0 + 1 < ck.powers_of_gamma_g@.len() }))
+}
 impl SonicKZG10 {
 //@fn id=sonic_pc.commit file=poly-commit/src/sonic_pc/mod.rs scope="impl<E, P> PolynomialCommitment<E::ScalarField, P> for SonicKZG10<E, P>" name=commit props=C08,C04,C07,C17,C01
     fn commit<'a>(ck: &CommitterKey, polynomials: Vec<&'a LabeledPolynomial>, rng: Option<&mut Rng>) -> (res: Result<(Vec<LabeledCommitment<kzg10::Commitment>>, Vec<kzg10::Randomness>), Error>)
@@ -118,6 +124,7 @@ impl SonicKZG10 {
         res is Ok ==> res->Ok_0.0@.len() == polynomials@.len() && res->Ok_0.1@.len() == polynomials@.len(),   // name=sonic_pc.commit.one_commitment_and_state_per_polynomial props=C01
         res is Ok ==> (forall|i: int| 0 <= i < polynomials@.len() ==> sonic_commit_one(ck, (#[trigger] polynomials@[i]), &res->Ok_0.0@[i], &res->Ok_0.1@[i])),   // name=sonic_pc.commit.commitments_are_the_key_defined_linear_maps props=C08,C04,C07,C01
         (res is Ok && rng is None) ==> (forall|i: int| 0 <= i < polynomials@.len() ==> (#[trigger] polynomials@[i]).hiding_bound is None),   // name=sonic_pc.commit.hiding_without_rng_never_succeeds props=C07,C17
+        res is Err ==> (exists|i: int| 0 <= i < polynomials@.len() && !(sonic_in_domain(ck, #[trigger] polynomials@[i], rng is Some))),   // name=sonic_pc.commit.only_out_of_domain_requests_are_refused props=C17,C01
 //@body
 //@rw * /&mut crate::optional_rng::OptionalRng\(rng\)/ => &mut optional_rng_wrap(rng)
 //@rw * /Some\(rng\)/ => Some(&mut *rng)
